@@ -58,6 +58,10 @@ def densified_in_station_order(ck, rid, f, fl, value, node, mapping, station_src
         v0 = v0.args[0]
     if isinstance(v0, ast.Name):
         defs = sorted(fl.defs_at(node, v0.id), key=lambda d: d.id)
+        if len(defs) == 1 and fl.def_how(defs[0], v0.id)[0] == "assign" and isinstance(fl.def_how(defs[0], v0.id)[1], ast.Name) \
+                and len(fl.defs_at(defs[0], fl.def_how(defs[0], v0.id)[1].id)) > 1:
+            # a plain copy of a variable with several definitions (the result variable of an inlined helper with a fast path)
+            return densified_in_station_order(ck, rid, f, fl, fl.def_how(defs[0], v0.id)[1], defs[0], mapping, station_src)
         if len(defs) > 1 and all(fl.def_how(d, v0.id)[0] == "assign" for d in defs):
             ok = True
             for d in defs:
